@@ -452,10 +452,13 @@ public:
   }
 
   edge_iterator findEdgeSortedByDst(GraphNode N1, GraphNode N2) {
-    auto e = std::lower_bound(
-        edge_begin(N1), edge_end(N1), N2,
+    auto end = edge_end(N1);
+    auto e   = std::lower_bound(
+        edge_begin(N1), end, N2,
         [=](edge_iterator e, GraphNode N) { return getEdgeDst(e) < N; });
-    return (getEdgeDst(e) == N2) ? e : edge_end(N1);
+    // e == end when N2 is larger than every destination (or N1 has no edges):
+    // there is no edge to look at then
+    return (e != end && getEdgeDst(e) == N2) ? e : end;
   }
 
   runtime::iterable<NoDerefIterator<edge_iterator>>
